@@ -1,42 +1,26 @@
 /* Proof units for C18, cache layer: the REAL cache code (cache.c, fifo_cache.c, lifo_cache.c, lru_cache.c) on top of the
  * REAL linked hash table code (linked_hash_table.c, linked_list.inl); only the hash table is the assumed client view of
- * contracts/linked_hash_table.h.  Reference semantics: the ordered map of that header + the eviction rule of the policy. */
+ * contracts/linked_hash_table.h.  Reference semantics: the ordered map of that header + the eviction rule of the policy.
+ *
+ * Windows (LHT_K = 6): slot 2 = the entry matching the operation key (units "existing"); slot 0 = the front where the
+ * front is evicted or used; slot 5 = the back where the back is evicted or read; all other slots arbitrary (present or
+ * not, gaps between them), so the list has any length and the distinguished entries sit anywhere relative to the ends. */
 #include "contracts/cache.h"
 #include "source/linked_hash_table.c"
 #include "source/cache.c"
 #include "source/fifo_cache.c"
 #include "source/lifo_cache.c"
 #include "source/lru_cache.c"
+#include "units/C18/common.inc"
 
-void *verif_keep_c18[] = {(void *)lht_user_dv, (void *)lht_user_dk, (void *)lht_user_hash, (void *)lht_user_eq};
-
-static size_t lht_any_index(size_t n) {
-    size_t i = nondet_size_t();
-    __CPROVER_assume(i < n);
-    return i;
-}
-static size_t lht_pick_key(const void **key, bool need_neighbours) {
-    *key = lht_any_key();
-    size_t mi = lht_abs_find(&g_a, *key);
-    if (mi != LHT_NONE) {
-        if (need_neighbours) __CPROVER_assume(lht_abs_visible(&g_a, mi));
-        g_M = g_a.node[mi];
-    }
-    return mi;
-}
-#define LHT_ASSERT_CALLS(dv_n, dv_p, dk_n, dk_p, rel_n, rel_p, cal_n)                                                  \
-    do {                                                                                                               \
-        __CPROVER_assert(g_m.dv_calls == (size_t)(dv_n) && ((dv_n) == 0 || g_m.dv_last == (const void *)(dv_p)),       \
-                         "value destructor: exactly once per displaced entry, on its value; otherwise not at all");    \
-        __CPROVER_assert(g_m.dk_calls == (size_t)(dk_n) && ((dk_n) == 0 || g_m.dk_last == (const void *)(dk_p)),       \
-                         "key destructor: exactly once per displaced key, on that key; otherwise not at all");         \
-        __CPROVER_assert(g_m.rel_calls == (size_t)(rel_n) && ((rel_n) == 0 || g_m.rel_last == (const void *)(rel_p)),  \
-                         "node storage: released exactly once per displaced node; otherwise not at all");              \
-        __CPROVER_assert(g_m.calloc_calls == (size_t)(cal_n), "node storage: one allocation per put, none otherwise"); \
-    } while (0)
+#define SLOT 2u
+#define FRONT 0u
+#define BACK (LHT_K - 1u)
+#define ALL ((1u << LHT_K) - 1u)
+#define BIT(i) (1u << (i))
 
 /* an arbitrary cache that respects its capacity: any max_items >= 1, any number of entries <= max_items */
-static struct aws_cache *cache_build(size_t max_n, int flags) {
+static struct aws_cache *cache_build(unsigned must, unsigned may, size_t null_slot) {
     struct aws_cache *C = malloc(sizeof(*C));
     __CPROVER_assume(C != NULL);
     C->allocator = &g_lht_allocator;
@@ -44,7 +28,7 @@ static struct aws_cache *cache_build(size_t max_n, int flags) {
     C->impl = NULL;
     C->max_items = nondet_size_t();
     __CPROVER_assume(C->max_items >= 1);
-    lht_build(&C->table, max_n, flags);
+    lht_build(&C->table, must, may & ~must, null_slot);
     __CPROVER_assume(lht_abs_size(&g_a) <= C->max_items);
     g_C = C;
     return C;
@@ -52,194 +36,239 @@ static struct aws_cache *cache_build(size_t max_n, int flags) {
 #define CACHE_HEADER_KEPT(C, m) __CPROVER_assert((C)->max_items == (m) && (C)->allocator == &g_lht_allocator, "cache header: capacity and allocator unchanged")
 
 enum policy { FIFO, LIFO, LRU };
+static int cache_put(enum policy pol, struct aws_cache *C, const void *key, void *val) {
+    return pol == FIFO ? s_fifo_cache_put(C, key, val) : pol == LIFO ? s_lifo_cache_put(C, key, val) : s_lru_cache_put(C, key, val);
+}
+#define RETAINED(C, fresh, key, val)                                                                                   \
+    do {                                                                                                               \
+        size_t s_ = lht_hash_lookup(key);                                                                              \
+        __CPROVER_assert(s_ != LHT_NONE && g_m.el[s_].value == (void *)(fresh) && (fresh)->value == (val) &&           \
+                             (fresh)->key == (key) && (C)->table.list.tail.prev == &(fresh)->node,                     \
+                         "the entry just inserted is retained, holds the new value and is the newest entry");          \
+    } while (0)
 
-/* put under the three policies.  Reference: re-insert -> value replaced, entry moves to the back, nothing evicted;
- * new key -> appended; if that exceeds max_items exactly ONE entry is evicted: the front (FIFO: oldest inserted; LRU:
- * least recently used, as finds/puts/use_lru move entries to the back) or the predecessor of the new entry (LIFO).
- * The entry just inserted is retained, the count never exceeds max_items, the evicted entry's destructors run once. */
-static void put_common(enum policy pol) {
-    struct aws_cache *C = cache_build(LHT_K, 0);
+/* put of a key that is in the cache: value replaced, entry moves to the back, nothing evicted (also in a full cache) */
+static void put_existing(enum policy pol) {
+    struct aws_cache *C = cache_build(BIT(SLOT), ALL, LHT_NONE);
     size_t max_items = C->max_items;
-    lht_check(&g_a);
-    const void *key;
+    const void *key = lht_matching_key(SLOT);
     void *val = lht_any_value();
-    size_t mi = lht_pick_key(&key, true);
-    size_t cell = mi != LHT_NONE ? g_a.slot[mi] : lht_hash_free_cell();
+    __CPROVER_assume(lht_abs_visible(&g_a, SLOT));
+    g_M = g_a.node[SLOT];
     bool has_dv = C->table.user_on_value_destroy != NULL, has_dk = C->table.user_on_key_destroy != NULL;
-    bool adds = mi == LHT_NONE && !g_m.create_fails;
-    bool evicts = adds && lht_abs_size(&g_a) == max_items;
-    size_t xi = LHT_NONE;
-    if (evicts) { /* the cache is full, so it is not empty: front and back exist */
-        xi = pol == LIFO ? g_a.n - 1 : 0;
-        __CPROVER_assume(lht_abs_visible(&g_a, xi));
-        g_X = g_a.node[xi];
-    }
+    bool other_ptr = g_a.key[SLOT] != key;
 
-    int r = pol == FIFO ? s_fifo_cache_put(C, key, val) : pol == LIFO ? s_lifo_cache_put(C, key, val) : s_lru_cache_put(C, key, val);
+    int r = cache_put(pol, C, key, val);
 
     struct aws_linked_hash_table_node *fresh = (struct aws_linked_hash_table_node *)g_m.calloc_last;
-    if (mi != LHT_NONE) {
-        bool other_ptr = g_a.key[mi] != key;
-        lht_abs_remove_at(&g_e, mi);
-        lht_abs_append(&g_e, fresh, key, val, cell);
-        LHT_ASSERT_CALLS(has_dv ? 1 : 0, g_a.val[mi], (has_dk && other_ptr) ? 1 : 0, g_a.key[mi], 1, g_a.node[mi], 1);
-        CANARY("existing key: replaced, moved to the back, nothing evicted");
-        if (lht_abs_size(&g_a) == max_items) CANARY("existing key in a full cache");
-    } else if (adds) {
-        lht_abs_append(&g_e, fresh, key, val, cell);
-        if (evicts) {
-            lht_abs_remove_at(&g_e, xi);
-            LHT_ASSERT_CALLS(has_dv ? 1 : 0, g_a.val[xi], has_dk ? 1 : 0, g_a.key[xi], 1, g_a.node[xi], 1);
-            CANARY("full cache: one entry evicted");
-            if (max_items == 1) CANARY("capacity 1: the only entry evicted");
-            if (max_items > 1000) CANARY("large full cache");
-        } else {
-            LHT_ASSERT_CALLS(0, NULL, 0, NULL, 0, NULL, 1);
-            CANARY("room left: nothing evicted");
-        }
+    __CPROVER_assert(r == AWS_OP_SUCCESS, "put over an existing key succeeds");
+    lht_abs_remove_at(&g_e, SLOT);
+    lht_abs_append(&g_e, fresh, key, val, g_a.cell[SLOT]);
+    lht_check(&g_e);
+    LHT_ASSERT_CALLS(has_dv ? 1 : 0, g_a.val[SLOT], (has_dk && other_ptr) ? 1 : 0, g_a.key[SLOT], 1, g_a.node[SLOT], 1);
+    __CPROVER_assert(lht_abs_size(&g_e) == lht_abs_size(&g_a) && lht_abs_size(&g_e) <= max_items, "capacity: same number of entries, never more than max_items");
+    CACHE_HEADER_KEPT(C, max_items);
+    RETAINED(C, fresh, key, val);
+    g_opkey = key;
+    if (lht_abs_size(&g_a) == max_items) CANARY("existing key in a full cache: nothing evicted"); else CANARY("existing key, room left");
+    if (other_ptr) CANARY("existing key under another pointer");
+    LHT_POSITION_CANARIES(SLOT);
+}
+void h_fifo_put_existing(void) { put_existing(FIFO); }
+void h_lifo_put_existing(void) { put_existing(LIFO); }
+void h_lru_put_existing(void) { put_existing(LRU); }
+
+/* put of a new key while there is room (or the hash table cannot create the entry): appended, nothing evicted */
+static void put_new_room(enum policy pol) {
+    struct aws_cache *C = cache_build(0, BIT(0) | BIT(1) | BIT(LHT_K - 2) | BIT(LHT_K - 1), LHT_NONE);
+    size_t max_items = C->max_items;
+    __CPROVER_assume(lht_abs_size(&g_a) < max_items || g_m.create_fails);
+    const void *key = lht_new_key();
+    void *val = lht_any_value();
+
+    int r = cache_put(pol, C, key, val);
+
+    struct aws_linked_hash_table_node *fresh = (struct aws_linked_hash_table_node *)g_m.calloc_last;
+    if (r == AWS_OP_SUCCESS) {
+        lht_abs_append(&g_e, fresh, key, val, LHT_NEW);
+        LHT_ASSERT_CALLS(0, NULL, 0, NULL, 0, NULL, 1);
+        RETAINED(C, fresh, key, val);
+        if (lht_abs_size(&g_a) == 0) CANARY("first entry"); else CANARY("room left: nothing evicted");
+        if (lht_abs_size(&g_e) == max_items) CANARY("cache is full now");
     } else {
+        __CPROVER_assert(g_m.create_fails, "put of a new key fails only when the hash table cannot create the entry");
         LHT_ASSERT_CALLS(0, NULL, 0, NULL, 1, fresh, 1);
-        CANARY("hash table could not create the entry: nothing changed");
+        if (lht_abs_size(&g_a) == max_items) CANARY("hash table could not create the entry (full cache): nothing changed, nothing evicted");
+        else CANARY("hash table could not create the entry: nothing changed");
     }
     lht_check(&g_e);
     __CPROVER_assert(lht_abs_size(&g_e) <= max_items, "capacity: never more than max_items entries");
     CACHE_HEADER_KEPT(C, max_items);
-    if (r == AWS_OP_SUCCESS) {
-        size_t s = lht_hash_lookup(key);
-        __CPROVER_assert(s != LHT_NONE && g_m.el[s].value == (void *)fresh && fresh->value == val && fresh->key == key &&
-                             C->table.list.tail.prev == &fresh->node,
-                         "the entry just inserted is retained, holds the new value and is the newest entry");
-    }
 }
-void h_fifo_put(void) { put_common(FIFO); }
-void h_lifo_put(void) { put_common(LIFO); }
-void h_lru_put(void) { put_common(LRU); }
+void h_fifo_put_new_room(void) { put_new_room(FIFO); }
+void h_lifo_put_new_room(void) { put_new_room(LIFO); }
+void h_lru_put_new_room(void) { put_new_room(LRU); }
 
-/* LRU find: a hit moves the entry to the back (lookups count as use) */
-void h_lru_find(void) {
-    struct aws_cache *C = cache_build(LHT_K, 0);
+/* put of a new key into a FULL cache (any max_items >= 1): appended, and exactly one entry evicted:
+ *   FIFO / LRU : the front (oldest inserted / least recently used)      -> window: slot 0 is the front
+ *   LIFO       : the entry that was the back before the call            -> window: slot 5 is the back
+ * The evicted entry's value and key destructors run once, its node is released once, the new entry is retained. */
+static void put_new_full(enum policy pol) {
+    size_t xi = pol == LIFO ? BACK : FRONT;
+    struct aws_cache *C = cache_build(BIT(xi), ALL, LHT_NONE);
     size_t max_items = C->max_items;
-    const void *key;
-    size_t mi = lht_pick_key(&key, true);
+    __CPROVER_assume(lht_abs_size(&g_a) == max_items && !g_m.create_fails);
+    __CPROVER_assume(lht_abs_visible(&g_a, xi));
+    g_X = g_a.node[xi];
+    const void *key = lht_new_key();
+    void *val = lht_any_value();
+    bool has_dv = C->table.user_on_value_destroy != NULL, has_dk = C->table.user_on_key_destroy != NULL;
+
+    int r = cache_put(pol, C, key, val);
+
+    struct aws_linked_hash_table_node *fresh = (struct aws_linked_hash_table_node *)g_m.calloc_last;
+    __CPROVER_assert(r == AWS_OP_SUCCESS, "put into a full cache succeeds");
+    lht_abs_append(&g_e, fresh, key, val, LHT_NEW);
+    lht_abs_remove_at(&g_e, xi);
+    lht_check(&g_e);
+    LHT_ASSERT_CALLS(has_dv ? 1 : 0, g_a.val[xi], has_dk ? 1 : 0, g_a.key[xi], 1, g_a.node[xi], 1);
+    __CPROVER_assert(lht_abs_size(&g_e) == max_items, "capacity: still exactly max_items entries");
+    CACHE_HEADER_KEPT(C, max_items);
+    RETAINED(C, fresh, key, val);
+    if (max_items == 1) CANARY("capacity 1: the only entry evicted, the new one retained");
+    else if (max_items == 2) CANARY("capacity 2");
+    else CANARY("capacity 3 or more");
+    if (max_items > 1000) CANARY("large full cache");
+    if (key == NULL) CANARY("NULL key");
+}
+void h_fifo_put_new_full(void) { put_new_full(FIFO); }
+void h_lifo_put_new_full(void) { put_new_full(LIFO); }
+void h_lru_put_new_full(void) { put_new_full(LRU); }
+
+/* find.  lru: a hit moves the entry to the back (lookups count as use).  default (FIFO, LIFO): the order does NOT change. */
+static void find_common(bool lru, bool existing) {
+    struct aws_cache *C = cache_build(existing ? BIT(SLOT) : 0, ALL, LHT_NONE);
+    size_t max_items = C->max_items;
+    const void *key = existing ? lht_matching_key(SLOT) : lht_new_key();
+    if (existing) {
+        if (lru) __CPROVER_assume(lht_abs_visible(&g_a, SLOT));
+        g_M = g_a.node[SLOT];
+    }
     void *out = (void *)&g_m;
 
-    int r = s_lru_cache_find(C, key, &out);
+    int r = lru ? s_lru_cache_find(C, key, &out) : aws_cache_base_default_find(C, key, &out);
 
     __CPROVER_assert(r == AWS_OP_SUCCESS, "find never fails");
-    __CPROVER_assert(out == (mi != LHT_NONE ? g_a.val[mi] : NULL), "find: the value stored under an equal key, NULL when there is none");
-    if (mi != LHT_NONE) {
-        lht_abs_remove_at(&g_e, mi);
-        lht_abs_append(&g_e, g_a.node[mi], g_a.key[mi], g_a.val[mi], g_a.slot[mi]);
-        if (mi == 0 && g_a.n > 1) CANARY("hit on the least recently used entry: it is the most recently used one now"); else CANARY("hit");
-    } else CANARY("miss: nothing changed");
+    __CPROVER_assert(out == (existing ? g_a.val[SLOT] : NULL), "find: the value stored under an equal key, NULL when there is none");
+    if (existing && lru) lht_abs_move_to_back(&g_e, SLOT);
     lht_check(&g_e);
     LHT_ASSERT_CALLS(0, NULL, 0, NULL, 0, NULL, 0);
     CACHE_HEADER_KEPT(C, max_items);
+    g_opkey = key;
 }
+#define FOUND_CANARIES(what)                                                                                           \
+    do {                                                                                                               \
+        if (g_a.key[SLOT] != g_opkey) CANARY(what " under an equal key with another pointer"); else CANARY(what " under the same pointer"); \
+        LHT_POSITION_CANARIES(SLOT);                                                                                   \
+    } while (0)
+void h_lru_find_hit(void) { find_common(true, true); FOUND_CANARIES("hit"); }
+void h_lru_find_miss(void) { find_common(true, false); CANARY("miss: nothing changed"); }
+void h_default_find_hit(void) { find_common(false, true); FOUND_CANARIES("hit"); }
+void h_default_find_miss(void) { find_common(false, false); CANARY("miss: nothing changed"); }
 
-/* FIFO / LIFO find (aws_cache_base_default_find): the order does NOT change */
-void h_default_find(void) {
-    struct aws_cache *C = cache_build(LHT_K, 0);
+static void remove_common(bool existing) {
+    struct aws_cache *C = cache_build(existing ? BIT(SLOT) : 0, ALL, LHT_NONE);
     size_t max_items = C->max_items;
-    const void *key;
-    size_t mi = lht_pick_key(&key, false);
-    void *out = (void *)&g_m;
-
-    int r = aws_cache_base_default_find(C, key, &out);
-
-    __CPROVER_assert(r == AWS_OP_SUCCESS, "find never fails");
-    __CPROVER_assert(out == (mi != LHT_NONE ? g_a.val[mi] : NULL), "find: the value stored under an equal key, NULL when there is none");
-    lht_check(&g_a);
-    LHT_ASSERT_CALLS(0, NULL, 0, NULL, 0, NULL, 0);
-    CACHE_HEADER_KEPT(C, max_items);
-    if (mi != LHT_NONE) CANARY("hit"); else CANARY("miss");
-}
-
-void h_default_remove(void) {
-    struct aws_cache *C = cache_build(LHT_K, 0);
-    size_t max_items = C->max_items;
-    const void *key;
-    size_t mi = lht_pick_key(&key, true);
+    const void *key = existing ? lht_matching_key(SLOT) : lht_new_key();
+    if (existing) {
+        __CPROVER_assume(lht_abs_visible(&g_a, SLOT));
+        g_M = g_a.node[SLOT];
+    }
     bool has_dv = C->table.user_on_value_destroy != NULL, has_dk = C->table.user_on_key_destroy != NULL;
 
     int r = aws_cache_base_default_remove(C, key);
 
     __CPROVER_assert(r == AWS_OP_SUCCESS, "remove never fails");
-    if (mi != LHT_NONE) {
-        lht_abs_remove_at(&g_e, mi);
-        LHT_ASSERT_CALLS(has_dv ? 1 : 0, g_a.val[mi], has_dk ? 1 : 0, g_a.key[mi], 1, g_a.node[mi], 0);
-        CANARY("removed");
+    if (existing) {
+        lht_abs_remove_at(&g_e, SLOT);
+        LHT_ASSERT_CALLS(has_dv ? 1 : 0, g_a.val[SLOT], has_dk ? 1 : 0, g_a.key[SLOT], 1, g_a.node[SLOT], 0);
     } else {
         LHT_ASSERT_CALLS(0, NULL, 0, NULL, 0, NULL, 0);
-        CANARY("absent: nothing changed");
     }
     lht_check(&g_e);
     CACHE_HEADER_KEPT(C, max_items);
+    g_opkey = key;
 }
+void h_default_remove_existing(void) { remove_common(true); FOUND_CANARIES("removed"); }
+void h_default_remove_absent(void) { remove_common(false); CANARY("absent: nothing changed"); }
 
 void h_default_get_element_count(void) {
-    struct aws_cache *C = cache_build(LHT_K, 0);
+    struct aws_cache *C = cache_build(0, ALL, LHT_NONE);
     size_t c = aws_cache_base_default_get_element_count(C);
     __CPROVER_assert(c == lht_abs_size(&g_a) && c <= C->max_items, "count is the size of the reference map and within capacity");
     if (c == 0) CANARY("empty"); else if (c == C->max_items) CANARY("full"); else CANARY("partly filled");
 }
 
 /* use_lru_element: the front entry becomes the back entry and its value is returned; empty cache -> NULL, untouched */
-void h_lru_use_lru_element(void) {
-    struct aws_cache *C = cache_build(LHT_K, 0);
+static void use_lru_common(bool empty) {
+    struct aws_cache *C = cache_build(empty ? 0 : BIT(FRONT), empty ? 0 : ALL, LHT_NONE);
     size_t max_items = C->max_items;
-    if (g_a.n > 0) {
-        __CPROVER_assume(lht_abs_visible(&g_a, 0));
-        g_M = g_a.node[0];
+    if (!empty) {
+        __CPROVER_assume(lht_abs_visible(&g_a, FRONT));
+        g_M = g_a.node[FRONT];
     }
     void *v = s_lru_cache_use_lru_element(C);
 
-    if (g_a.n > 0) {
-        __CPROVER_assert(v == g_a.val[0], "use_lru_element returns the value of the least recently used entry");
-        lht_abs_remove_at(&g_e, 0);
-        lht_abs_append(&g_e, g_a.node[0], g_a.key[0], g_a.val[0], g_a.slot[0]);
-        if (g_a.n == 1) CANARY("single entry"); else CANARY("least recently used entry is now the most recently used");
-    } else {
-        __CPROVER_assert(v == NULL, "use_lru_element of an empty cache is NULL");
-        CANARY("empty cache");
-    }
+    __CPROVER_assert(v == (empty ? NULL : g_a.val[FRONT]), "use_lru_element returns the value of the least recently used entry, NULL when empty");
+    if (!empty) lht_abs_move_to_back(&g_e, FRONT);
     lht_check(&g_e);
     LHT_ASSERT_CALLS(0, NULL, 0, NULL, 0, NULL, 0);
     CACHE_HEADER_KEPT(C, max_items);
 }
-void h_lru_get_mru_element(void) {
-    struct aws_cache *C = cache_build(LHT_K, 0);
-    if (g_a.n > 0) g_M = g_a.node[g_a.n - 1];
-    void *v = s_lru_cache_get_mru_element(C);
-    __CPROVER_assert(v == (g_a.n > 0 ? g_a.val[g_a.n - 1] : NULL), "get_mru_element returns the value of the most recently used entry, NULL when empty");
-    lht_check(&g_a);
-    if (g_a.n > 0) CANARY("most recently used"); else CANARY("empty cache");
+void h_lru_use_lru_element(void) {
+    use_lru_common(false);
+    if (lht_abs_size(&g_a) == 1) CANARY("single entry"); else CANARY("least recently used entry is now the most recently used");
+    if (g_a.hidden > 1000) CANARY("long list");
 }
+void h_lru_use_lru_element_empty(void) { use_lru_common(true); CANARY("empty cache"); }
+
+static void get_mru_common(bool empty) {
+    struct aws_cache *C = cache_build(empty ? 0 : BIT(BACK), empty ? 0 : ALL, LHT_NONE);
+    if (!empty) g_M = g_a.node[BACK];
+    void *v = s_lru_cache_get_mru_element(C);
+    __CPROVER_assert(v == (empty ? NULL : g_a.val[BACK]), "get_mru_element returns the value of the most recently used entry, NULL when empty");
+    lht_check(&g_a);
+}
+void h_lru_get_mru_element(void) { get_mru_common(false); if (lht_abs_size(&g_a) == 1) CANARY("single entry"); else CANARY("most recently used"); }
+void h_lru_get_mru_element_empty(void) { get_mru_common(true); CANARY("empty cache"); }
 
 /* BOUNDED: whole list materialised */
 #ifndef LHT_CLEAR_N
 #    define LHT_CLEAR_N 3
 #endif
 static void cache_clear_common(bool destroy) {
-    struct aws_cache *C = cache_build(LHT_CLEAR_N, LHT_PERMUTE_CELLS);
+    struct aws_cache *C = cache_build(0, (1u << LHT_CLEAR_N) - 1u, LHT_NONE);
+    lht_clear_order(LHT_CLEAR_N);
     size_t max_items = C->max_items;
     __CPROVER_assume(g_a.hidden == 0);
     bool has_dv = C->table.user_on_value_destroy != NULL, has_dk = C->table.user_on_key_destroy != NULL;
-    size_t w = lht_any_index(g_a.n > 0 ? g_a.n : 1);
-    if (g_a.n > 0) g_m.rel_watch = g_a.node[w];
+    size_t n = lht_abs_size(&g_a);
+    size_t w = nondet_size_t();
+    __CPROVER_assume(w < LHT_CLEAR_N);
+    if (g_a.present[w]) g_m.rel_watch = g_a.node[w];
     if (destroy) aws_cache_base_default_destroy(C); else aws_cache_base_default_clear(C);
     __CPROVER_assert(g_m.count == 0, "count: cache is empty");
-    __CPROVER_assert(g_m.dv_calls == (has_dv ? g_a.n : 0) && g_m.dk_calls == (has_dk ? g_a.n : 0) && g_m.rel_calls == g_a.n + (destroy ? 1 : 0),
+    __CPROVER_assert(g_m.dv_calls == (has_dv ? n : 0) && g_m.dk_calls == (has_dk ? n : 0) && g_m.rel_calls == n + (destroy ? 1 : 0),
                      "destructors and release: one call per entry in total (plus the cache itself on destroy)");
-    if (g_a.n > 0) __CPROVER_assert(g_m.rel_hits == 1, "node storage: the watched node released exactly once");
+    if (g_a.present[w]) __CPROVER_assert(g_m.rel_hits == 1, "node storage: the watched node released exactly once");
     if (destroy) {
         __CPROVER_assert(g_m.rel_last == (const void *)C, "the cache itself is released last");
     } else {
-        g_e.n = 0;
+        for (size_t i = 0; i < LHT_S; i++) g_e.present[i] = false;
         lht_check(&g_e);
         CACHE_HEADER_KEPT(C, max_items);
     }
-    if (g_a.n == 0) CANARY("was empty"); else if (g_a.n == LHT_CLEAR_N) CANARY("largest list of the bound"); else CANARY("some entries");
+    if (n == 0) CANARY("was empty"); else if (n == LHT_CLEAR_N) CANARY("largest list of the bound"); else CANARY("some entries");
 }
 void h_default_clear(void) { cache_clear_common(false); }
 void h_default_destroy(void) { cache_clear_common(true); }
